@@ -949,13 +949,19 @@ impl TypeVar {
         TypeVar(UnionFindNode::new(data_instantiated))
     }
 
+    // `of_poly` is given when the implementing type is a type variable constrained by the
+    // interface. Its output types are then the ones fixed by the constraint
+    // (`T Iterator<IteratorItem=int>`). The others are unknown: they are recorded as missing (and
+    // reported by the caller) because as plain unification variables the body of a generic
+    // function could turn them into any type it likes.
     fn instantiate_iface_output_types_without_impl(
         self,
         ctx: &mut StaticsContext,
         node: AstNode,
+        of_poly: Option<&OutputTypesOfPoly>,
     ) -> TypeVar {
         let id = PolyInstantiationId::new();
-        self.instantiate_iface_output_types_without_impl_(ctx, node, id)
+        self.instantiate_iface_output_types_without_impl_(ctx, node, id, of_poly)
     }
 
     fn instantiate_iface_output_types_without_impl_(
@@ -963,6 +969,7 @@ impl TypeVar {
         ctx: &mut StaticsContext,
         node: AstNode,
         id: PolyInstantiationId,
+        of_poly: Option<&OutputTypesOfPoly>,
     ) -> TypeVar {
         let Some(ty) = self.single() else {
             return self;
@@ -980,8 +987,22 @@ impl TypeVar {
                 ty // noop
             }
             PotentialType::InterfaceOutput(_, ref output_type) => {
+                if let Some(of_poly) = of_poly {
+                    if let Some((_, val)) =
+                        of_poly.fixed.iter().find(|(fixed, _)| fixed == output_type)
+                    {
+                        return val.clone();
+                    }
+                    of_poly
+                        .missing
+                        .borrow_mut()
+                        .push(output_type.name.v.clone());
+                }
                 let prov = Prov::InstantiateInterfaceOutputTypeWithoutImpl(id, output_type.clone());
                 let ret = TypeVar::fresh(ctx, prov.clone());
+                if of_poly.is_some() {
+                    ret.set_flag_missing_info();
+                }
                 let ifaces = output_type.interfaces(ctx);
                 for constraint in &ifaces {
                     constrain_to_iface(ctx, &ret, node.clone(), constraint);
@@ -992,7 +1013,12 @@ impl TypeVar {
                 let params = params
                     .into_iter()
                     .map(|ty| {
-                        ty.instantiate_iface_output_types_without_impl_(ctx, node.clone(), id)
+                        ty.instantiate_iface_output_types_without_impl_(
+                            ctx,
+                            node.clone(),
+                            id,
+                            of_poly,
+                        )
                     })
                     .collect();
                 PotentialType::Nominal(reasons, ident, params)
@@ -1001,17 +1027,27 @@ impl TypeVar {
                 let args = args
                     .into_iter()
                     .map(|ty| {
-                        ty.instantiate_iface_output_types_without_impl_(ctx, node.clone(), id)
+                        ty.instantiate_iface_output_types_without_impl_(
+                            ctx,
+                            node.clone(),
+                            id,
+                            of_poly,
+                        )
                     })
                     .collect();
-                let out = out.instantiate_iface_output_types_without_impl_(ctx, node, id);
+                let out = out.instantiate_iface_output_types_without_impl_(ctx, node, id, of_poly);
                 PotentialType::Function(reasons, args, out)
             }
             PotentialType::Tuple(reasons, elems) => {
                 let elems = elems
                     .into_iter()
                     .map(|ty| {
-                        ty.instantiate_iface_output_types_without_impl_(ctx, node.clone(), id)
+                        ty.instantiate_iface_output_types_without_impl_(
+                            ctx,
+                            node.clone(),
+                            id,
+                            of_poly,
+                        )
                     })
                     .collect();
                 PotentialType::Tuple(reasons, elems)
@@ -1252,22 +1288,60 @@ fn tyvar_of_iface_method(
     node: AstNode,
 ) -> TypeVar {
     // TODO: silent failure then fallback isn't great!
-    if let Some(actual_impl_ty) = actual_impl_ty
+    if let Some(actual_impl_ty) = &actual_impl_ty
         && let Some(desired_impl_ty) = actual_impl_ty.single()
         && let Some(imp) = ctx.get_iface_impl_for_type(&desired_impl_ty.key(), iface_def)
         // the impl may list its methods in a different order than the interface
         && let Some(f) = imp.get_method_by_name(&iface_def.methods[method].name.v)
     {
-        let subst = get_substitution_of_typ(ctx, &imp.typ, &actual_impl_ty);
+        let subst = get_substitution_of_typ(ctx, &imp.typ, actual_impl_ty);
         return TypeVar::from_node(ctx, f.name.node())
             .subst(&subst)
             .instantiate(ctx, polyvar_scope, node);
     }
     // the interface's own method types are otherwise only computed along with its implementations
     generate_constraints_iface_def(ctx, iface_def);
-    TypeVar::from_node(ctx, iface_def.methods[method].name.node())
+    // the output types of a type variable constrained by this interface
+    let of_poly = match actual_impl_ty.and_then(|ty| ty.single()) {
+        Some(PotentialType::Poly(_, decl)) => decl
+            .interfaces(ctx)
+            .into_iter()
+            .find(|constraint| &constraint.iface == iface_def)
+            .map(|constraint| OutputTypesOfPoly {
+                fixed: constraint
+                    .args
+                    .iter()
+                    .map(|(output_type, val, _)| (output_type.clone(), val.to_typevar(ctx)))
+                    .collect(),
+                missing: Default::default(),
+            }),
+        _ => None,
+    };
+    let method_ty = TypeVar::from_node(ctx, iface_def.methods[method].name.node())
         .instantiate(ctx, polyvar_scope, node.clone())
-        .instantiate_iface_output_types_without_impl(ctx, node.clone())
+        .instantiate_iface_output_types_without_impl(ctx, node.clone(), of_poly.as_ref());
+    if let Some(of_poly) = of_poly {
+        let mut missing = of_poly.missing.into_inner();
+        missing.dedup();
+        if let Some(name) = missing.first() {
+            ctx.errors.push(Error::GenericWithNode {
+                msg: format!(
+                    "`{}` of this type variable is not known here. Say what it is in the constraint, for example `{}<{}=int>`",
+                    missing.join("`, `"),
+                    iface_def.name.v,
+                    name
+                ),
+                node,
+            });
+        }
+    }
+    method_ty
+}
+
+// What the constraint `T Iface<Out=..>` on a type variable says about the output types of Iface
+struct OutputTypesOfPoly {
+    fixed: Vec<(Rc<InterfaceOutputType>, TypeVar)>,
+    missing: std::cell::RefCell<Vec<String>>,
 }
 
 impl AstType {
